@@ -147,6 +147,17 @@ class Ctx:
         return f"{base}_{self.n}"
 
 
+def rename_var(node, old, new):
+    """rename the free uses of local `old` (as a path expression) to `new` in an AST"""
+    if isinstance(node, tuple):
+        if node[:1] == ("path",) and node[1] == [old]:
+            return ("path", [new])
+        return tuple(rename_var(x, old, new) for x in node)
+    if isinstance(node, list):
+        return [rename_var(x, old, new) for x in node]
+    return node
+
+
 def place_var(e):
     """the variable a place expression denotes: `x`, `self.0` (newtype over String), `&mut x`, `*x`"""
     while e[0] in ("unary", "paren"):
@@ -176,6 +187,7 @@ def assigned_vars(node, acc):
         for x in node: assigned_vars(x, acc)
 
 
+POINTER_ONLY = {"is_root", "count", "front", "back", "first", "last", "split_front", "split_back", "parent", "intersection"}
 MUTATORS = {"push", "extend_from_slice", "push_str", "insert", "insert_str", "pop", "clear", "split_off", "remove"}
 
 
@@ -196,6 +208,7 @@ class Unit:
         self.enums = {}         # name -> [(variant, kind, payload)]
         self.consts = {}        # name -> ast
         self.fns = {}           # (impl, name) -> coq name, param types, ret type   (generated so far)
+        self.mut_self_fns = set()
 
     def ctor_list(self, ty):
         """constructors of a type: [(coq_ctor, [field types], [field names]|None, rust_variant)]"""
@@ -428,6 +441,7 @@ class Emitter:
         if frm == to: return t
         if is_str(frm) and is_str(to): return t
         if frm == "Cow" and is_str(to): return f"(cow_text {t})"
+        if frm == ("named", "Token") and is_str(to): return f"(cow_text (Token_inner {t}))"
         if frm == "str" and to == "Cow": return f"(Cow_Borrowed {t})"
         if frm == "String" and to == "Cow": return f"(Cow_Owned {t})"
         if isinstance(frm, tuple) and isinstance(to, tuple) and frm[0] == to[0]:
@@ -461,6 +475,13 @@ class Emitter:
 
     def apply_closure(self, c, args, env, cx, k):
         """inline application of a closure literal to argument terms [(term, ty)]; the body may be effectful"""
+        if c[0] == "path" and c[1][-2:] == ["Token", "to_owned"] and len(args) == 1 and is_str(args[0][1]):
+            return k(f"(mk_Token (Cow_Owned {args[0][0]}))", ("named", "Token"))     # an item of `tokens()` is its encoded text
+        if c[0] == "path" and c[1][-2:] == ["Into", "into"] and len(args) == 1:
+            return k(args[0][0], args[0][1])
+        if c[0] == "path":                      # `map(Index::Num)`, `map_err(ParseIndexError::from)`: a function given by name
+            names = [cx.fresh("a") for _ in args]
+            c = ("closure", [("p_bind", n) for n in names], ("call", c, [("path", [n]) for n in names]))
         if c[0] != "closure": raise RsError("expected a closure literal")
         if len(c[1]) != len(args): raise RsError("closure arity mismatch")
         env2 = dict(env)
@@ -482,12 +503,31 @@ class Emitter:
             else: raise RsError("closure parameter pattern not supported")
         return pre + self.tr(c[2], env2, cx, k)
 
+    def pure_closure_term(self, c, x, xty, env, cx):
+        """if applying closure c to the variable x needs no sequencing (no panics, no calls of generated functions) return
+        (body term with x free, type); else None.  Lets the Option / Result combinators emit one term instead of duplicating
+        the continuation."""
+        got = {}
+        def kk(t, ty):
+            got["ty"] = ty
+            return "\0" + t
+        try:
+            code = self.apply_closure(c, [(x, xty)], env, cx, kk)
+        except RsError:
+            return None
+        if "ty" not in got or code.count("\0") != 1: return None
+        pre, term = code.split("\0")
+        if "match " in pre or " if " in (" " + pre): return None
+        return pre + term, got["ty"]
+
     def tr_mcall(self, e, env, cx, k):
         recv, name, args = e[1], e[2], e[3]
         base = re.sub(r"::<.*$", "", name)
         # iterator chains recognised structurally
         if base == "position" and recv[0] == "mcall" and recv[2] == "bytes" and not recv[3]:
             return self.tr(recv[1], env, cx, lambda t, ty: k(f"(positionN {self.closure1(args[0], 'N', env, cx)} {self.coerce(t, ty, 'str')})", ("opt", "N")))
+        if base == "position" and recv[0] == "mcall" and recv[2] == "chars" and not recv[3]:         # s.chars().position(f): a CHAR index
+            return self.tr(recv[1], env, cx, lambda t, ty: k(f"(chars_positionN {self.closure1(args[0], 'N', env, cx)} {self.coerce(t, ty, 'str')})", ("opt", "N")))
         if base == "get" and recv[0] == "mcall" and recv[2] == "as_bytes" and len(args) == 1:      # s.as_bytes().get(i)
             return self.tr(recv[1], env, cx, lambda t, ty: self.tr(args[0], env, cx, lambda it, _: k(f"(nth_N {self.coerce(t, ty, 'str')} {it})", ("opt", "N"))))
         if base == "nth" and recv[0] == "mcall" and recv[2] == "tokens" and len(args) == 1:        # p.tokens().nth(i)
@@ -505,7 +545,8 @@ class Emitter:
             tyname = rty[1] if isinstance(rty, tuple) and rty[0] == "named" else None
             if tyname and (tyname, base) in self.u.fns:
                 return self.call_generated((tyname, base), [(rt, rty)], args, env, cx, k)
-            if (tyname == "PointerBuf" or rty in ("str", "String")) and ("Pointer", base) in self.u.fns and base not in ("len",):       # Deref<Target = Pointer>; erased newtype
+            if (tyname == "PointerBuf" or (rty in ("str", "String") and base in POINTER_ONLY)) and ("Pointer", base) in self.u.fns:
+                # Deref<Target = Pointer>; or the newtype was erased earlier and the method exists on Pointer only
                 return self.call_generated(("Pointer", base), [(rt, ("named", "Pointer"))], args, env, cx, k)
             # ---- Pointer::get(range): dispatch on the syntactic form of the range (PointerIndex impls)
             if tyname == "Pointer" and base == "get" and len(args) == 1 and args[0][0] == "range":
@@ -543,10 +584,19 @@ class Emitter:
                 return self.tr(args[0], env, cx, lambda at, aty: k(f"(obj_lookup {self.coerce(at, aty, 'str')} {rt})", ("opt", ("named", "Value"))))
             if isinstance(rty, tuple) and rty[0] == "list" and base == "len" and not args:
                 return k(f"(len {rt})", "N")
+            if isinstance(rty, tuple) and rty[0] == "list" and base in ("collect", "into_iter", "iter") and not args:
+                return k(rt, rty)
+            if isinstance(rty, tuple) and rty[0] == "list" and base == "get" and len(args) == 1:
+                return self.tr(args[0], env, cx, lambda it, _: k(f"(nth_N {rt} {it})", ("opt", rty[1])))
+            if isinstance(rty, tuple) and rty[0] == "list" and base == "map" and len(args) == 1 and args[0][0] == "path" and args[0][1][-2:] == ["Into", "into"]:
+                return k(rt, rty)
             # ---- Option combinators (closure bodies may be effectful: emitted in place)
             if isinstance(rty, tuple) and rty[0] == "opt":
                 x = cx.fresh("o")
                 if base == "map" and len(args) == 1:
+                    pc = self.pure_closure_term(args[0], x, rty[1], env, cx)
+                    if pc:
+                        return k(f"(option_map (fun {x} => {pc[0]}) {rt})", ("opt", pc[1]))
                     some = self.apply_closure(args[0], [(x, rty[1])], env, cx, lambda t, ty: k(f"(Some {t})", ("opt", ty)))
                     return f"match {rt} with Some {x} => {some} | None => {k('None', ('opt', '?'))} end"
                 if base == "map_or_else" and len(args) == 2:
@@ -581,6 +631,8 @@ class Emitter:
                 x = cx.fresh("o")
                 some = self.apply_closure(args[1], [(x, rty[1])], env, cx, k)
                 return f"match {rt} with Some {x} => {some} | None => {self.tr(args[0], env, cx, k)} end"
+            if name == "parse::<usize>" and is_str(rty) and not args:
+                return k(f"(prim_parse_usize {rt})", ("res", "N", ("named", "ParseIntError")))
             if base == "checked_add" and rty == "N" and len(args) == 1:
                 return self.tr(args[0], env, cx, lambda at, _: k(f"(checked_add_usize {rt} {at})", ("opt", "N")))
             if base == "into_inner" and tyname == "RangeInclusive":
@@ -663,6 +715,9 @@ class Emitter:
         if name in ("Self::new_unchecked", "Pointer::new_unchecked", "PointerBuf::new_unchecked") and len(args) == 1:
             tn = cx.self_ty if segs[0] == "Self" else segs[0]
             return self.tr(args[0], env, cx, lambda t, ty: k(self.coerce(t, ty, "str"), ("named", tn) if isinstance(tn, str) else tn))
+        if name in ("PointerBuf", "Pointer", "Self") and len(args) == 1 and (name != "Self" or cx.self_ty in ALIASES):
+            tn = cx.self_ty if name == "Self" else name
+            return self.tr(args[0], env, cx, lambda t, ty: k(self.coerce(t, ty, "str"), ("named", tn)))
         if name in ("Self::root", "Pointer::root", "PointerBuf::new", "PointerBuf::root") and not args:
             tn = cx.self_ty if segs[0] == "Self" else segs[0]
             return k("[]", ("named", tn) if isinstance(tn, str) else tn)
@@ -939,6 +994,13 @@ class Emitter:
             raise RsError(f"let pattern {pat[0]} not supported")
         if kind == "assign":
             lhs, op, rhs = s[1], s[2], s[3]
+            if lhs[0] == "index" and place_var(lhs[1]) in env and op == "=":
+                x = place_var(lhs[1])
+                xty = env[x][1]
+                if not (isinstance(xty, tuple) and xty[0] == "list"): raise RsError("index assignment on a non-list")
+                v = cx.fresh("upd")
+                return self.tr_list([lhs[2], rhs], env, cx, lambda ts:
+                    f"match list_set {x} {ts[0][0]} {self.coerce(ts[1][0], ts[1][1], xty[1])} with Ret {v} => let {x} := {v} in {cont(env)} | Panic => Panic | OutOfFuel => OutOfFuel end")
             x = place_var(lhs)
             if not (x and x in env): raise RsError("assignment to an unknown place")
             if op == "=":
@@ -975,6 +1037,18 @@ class Emitter:
                     if env[x][1] != "map" or len(e[3]) != 2: raise RsError("insert is only supported on a Map / Table variable")
                     return self.tr_list(e[3], env, cx, lambda ts: f"let {x} := (obj_insert {self.coerce(ts[0][0], ts[0][1], 'str')} {ts[1][0]} {x}) in {cont(env)}")
                 return self.tr(e[3][0], env, cx, lambda t, ty: f"let {x} := ({x} ++ {self.coerce(t, ty, 'str')}) in {cont(env)}")
+            if e[0] == "mcall" and place_var(e[1]) in env:
+                x = place_var(e[1])
+                xty = env[x][1]
+                tn = xty[1] if isinstance(xty, tuple) and xty[0] == "named" else None
+                base_ = re.sub(r"::<.*$", "", e[2])
+                if tn and (tn, base_) in self.u.fns and (tn, base_) in self.u.mut_self_fns:
+                    # a generated `&mut self` method: returns (self afterwards, result); the result is dropped here
+                    r = cx.fresh("ms")
+                    coqname, ptys, rty = self.u.fns[(tn, base_)]
+                    return self.tr_list(e[3], env, cx, lambda ts:
+                        f"match {coqname} {x} {' '.join(self.coerce(t, ty, pty) for (t, ty), pty in zip(ts, ptys[1:]))} with "
+                        f"Ret {r} => let {x} := (fst {r}) in {cont(env)} | Panic => Panic | OutOfFuel => OutOfFuel end")
             if e[0] in ("return", "break", "continue"):
                 return self.tr(e, env, cx, k)
             return self.tr(e, env, cx, lambda t, ty: cont(env))
@@ -1045,6 +1119,10 @@ class Emitter:
         cx.nloops += 1
         name = f"{cx.fname}_loop{cx.nloops}" if lifted else cx.fresh("loop")
         l = "l__" if lifted else cx.fresh("l")
+        if x in env and tuple_item is None:
+            x2 = cx.fresh(x)                      # the loop variable shadows an outer local: rename it inside the body
+            body = rename_var(body, x, x2)
+            x = x2
         if x in env or (counter and counter in env): raise RsError("loop variable shadows an outer variable")
         def after_src(st, sty):
             if isinstance(sty, tuple) and sty[0] == "list":
@@ -1223,6 +1301,7 @@ def translate(repo, groups, types, fuel):
                 lines += cx.lifted
                 lines.append(f"Definition {coqname} {' '.join(binders)} : outcome {coq_ty(ret_ty)} :=\n{pretty(code)}.")
                 unit.fns[(t.get("self_ty", impl), name)] = (coqname, ptys, ret_ty)
+                if mut_self: unit.mut_self_fns.add((t.get("self_ty", impl), name))
                 entry["status"] = "translated"
             except RsError as e:
                 entry["status"] = "not-translatable"; entry["error"] = str(e)
@@ -1232,7 +1311,7 @@ def translate(repo, groups, types, fuel):
 CONFIG = {
     "types": ["InvalidEncoding", "EncodingError", "Token", "ParseError", "Index", "OutOfBoundsError",
               "Range", "RangeFrom", "RangeTo", "RangeInclusive", "RangeToInclusive", "RangeFull", "Bound",
-              "ParseIntError", "InvalidCharacterError", "ParseIndexError", "ResolveError", "AssignError"],
+              "ParseIntError", "InvalidCharacterError", "ParseIndexError", "ResolveError", "AssignError", "ReplaceError"],
     # identifiers renamed while lexing a file (two modules both call their error type `Error`)
     "file_renames": {"src/resolve.rs": {"Error": "ResolveError"}, "src/assign.rs": {"Error": "AssignError"}},
     # one generated file per group: coq/Generated/Scan<Group>.v  (each imports ScanTypes and the groups before it)
@@ -1295,6 +1374,9 @@ CONFIG = {
             {"file": "src/index.rs", "impl": "Index", "name": "for_len", "coq": "gen_Index_for_len"},
             {"file": "src/index.rs", "impl": "Index", "name": "for_len_incl", "coq": "gen_Index_for_len_incl"},
             {"file": "src/index.rs", "impl": "Index", "name": "for_len_unchecked", "coq": "gen_Index_for_len_unchecked"},
+            {"file": "src/index.rs", "impl": "ParseIndexError", "trait": "From<ParseIntError>", "name": "from", "coq": "gen_ParseIndexError_from"},
+            {"file": "src/index.rs", "impl": "Index", "trait": "FromStr", "name": "from_str", "coq": "gen_Index_from_str",
+             "ret": ("res", ("named", "Index"), ("named", "ParseIndexError"))},
         ]),
         ("Buf", [
             {"file": "src/pointer.rs", "impl": "PointerBuf", "name": "push_front", "coq": "gen_PointerBuf_push_front", "mut_self": True},
@@ -1304,6 +1386,17 @@ CONFIG = {
             {"file": "src/pointer.rs", "impl": "PointerBuf", "name": "append", "coq": "gen_PointerBuf_append", "mut_self": True,
              "param_types": {"other": ("named", "Pointer")}},
             {"file": "src/pointer.rs", "impl": "PointerBuf", "name": "clear", "coq": "gen_PointerBuf_clear", "mut_self": True},
+            {"file": "src/pointer.rs", "impl": "PointerBuf", "name": "replace", "coq": "gen_PointerBuf_replace", "mut_self": True},
+            {"file": "src/pointer.rs", "impl": "PointerBuf", "name": "from_tokens", "coq": "gen_PointerBuf_from_tokens",
+             "param_types": {"tokens": ("list", ("named", "Token"))}},
+        ]),
+        ("PtrBuild", [
+            {"file": "src/pointer.rs", "impl": "Pointer", "name": "to_buf", "coq": "gen_Pointer_to_buf"},
+            {"file": "src/pointer.rs", "impl": "Pointer", "name": "len", "coq": "gen_Pointer_len"},
+            {"file": "src/pointer.rs", "impl": "Pointer", "name": "is_empty", "coq": "gen_Pointer_is_empty"},
+            {"file": "src/pointer.rs", "impl": "Pointer", "name": "with_trailing_token", "coq": "gen_Pointer_with_trailing_token"},
+            {"file": "src/pointer.rs", "impl": "Pointer", "name": "with_leading_token", "coq": "gen_Pointer_with_leading_token"},
+            {"file": "src/pointer.rs", "impl": "Pointer", "name": "concat", "coq": "gen_Pointer_concat"},
         ]),
         ("Tree", [
             {"file": "src/resolve.rs", "impl": "ResolveError", "name": "offset", "coq": "gen_ResolveError_offset"},
@@ -1334,7 +1427,7 @@ CONFIG = {
         ]),
     ],
     # which earlier groups a group's functions call (imports of the generated file)
-    "deps": {"Slice": ["PtrOps"], "Buf": ["Token", "PtrOps"], "Tree": ["Token", "PtrOps", "Slice", "Index", "=GenTreePrelude"]},
+    "deps": {"Slice": ["PtrOps"], "Buf": ["Token", "PtrOps"], "PtrBuild": ["Token", "PtrOps", "Buf"], "Index": ["=GenTreePrelude"], "Tree": ["Token", "PtrOps", "Slice", "Index", "=GenTreePrelude"]},
     # fuel for `while` loops: (generated function, nesting depth) -> Gallina term over the parameters
     "fuel": {("gen_validate_bytes", 0): "S (length bytes)",
              ("gen_json_resolve", 0): "S (length ptr)", ("gen_json_resolve_mut", 0): "S (length ptr)",
